@@ -68,6 +68,10 @@ def build(tier):
             c["lens"] = [c["lens"][0], max(c["W"], c["lens"][0] - 9)]
         if c["fe"] == "single":
             c["lens"] = c["lens"][:1]
+        if i == 0:
+            # more clusters than regimes and a stiff switching cost: clusters collapse and are REPOPULATED, the only
+            # use of the global Python generator after the pool is opened
+            c.update(K=5, n_regimes=2, beta=50.0, beta_form="float", m=3, limit=5)
         if i == nbase - 1:
             c["degenerate"] = "constant_sensor"       # a stuck channel: zero variance in every cluster
             c["N"] = max(c["N"], 2)
